@@ -136,3 +136,38 @@ func writeCompact(buf *bytes.Buffer, v interface{}) {
 		buf.Write(b)
 	}
 }
+
+// MaskExamples returns the canonical form of a JSON document with every string value of a key "example" blanked.
+// ok is false if the input is not JSON.
+func MaskExamples(b []byte) (string, bool) {
+	v, err := ParseJSON(b)
+	if err != nil {
+		return "", false
+	}
+	var mask func(x interface{})
+	mask = func(x interface{}) {
+		switch t := x.(type) {
+		case *Obj:
+			for _, k := range t.Keys {
+				if _, isStr := t.M[k].(string); isStr && k == "example" {
+					t.M[k] = ""
+					continue
+				}
+				mask(t.M[k])
+			}
+		case []interface{}:
+			for _, e := range t {
+				mask(e)
+			}
+		}
+	}
+	mask(v)
+	return Compact(v), true
+}
+
+// OnlyExamplesDiffer: two JSON documents differ, but only inside "example" strings.
+func OnlyExamplesDiffer(a, b []byte) bool {
+	ma, ok1 := MaskExamples(a)
+	mb, ok2 := MaskExamples(b)
+	return ok1 && ok2 && ma == mb
+}
